@@ -18,7 +18,6 @@ import (
 	"bytes"
 	"fmt"
 	"math/big"
-	"os"
 	"sort"
 	"time"
 
@@ -37,8 +36,6 @@ import (
 )
 
 const softLimit = 2 * 1024 * 1024
-
-var strict = os.Getenv("C48_STRICT") != ""
 
 // ---------------------------------------------------------------- state recipe
 
@@ -578,17 +575,9 @@ func runStorageRanges(bc *core.BlockChain, v *view, r SL) (o reqOut) {
 				o.tags = append(o.tags, "stor:multi-complete")
 			}
 		} else {
-			// an incomplete storage without a proof (or not last): the consumer cannot verify it
-			deviation := first && og == (common.Hash{}) && more && len(limitB) > 0 &&
-				bytes.Compare(l[len(l)-1].Hash[:], lim[:]) >= 0
-			if deviation && !strict {
-				o.tags = append(o.tags, "stor:DEVIATION-limit-stop-without-proof")
-				if _, err := trie.VerifyRangeProof(av.Root, nil, keys, vals, nil); err == nil {
-					fail(&o, "storage ranges: oracle inconsistency, truncated range verified as whole trie")
-				}
-			} else {
-				fail(&o, "storage ranges: incomplete storage range returned without proof (origin zero, stopped at the limit): list %d of %d, %d of %d slots", li, len(slots), len(l), len(av.Slots))
-			}
+			// an incomplete storage without a proof (or not last): the consumer cannot verify it.
+			// (The handler before /repo 1d1b984ea0 did this for origin zero + stop at req.Limit.)
+			fail(&o, "storage ranges: incomplete storage range returned without proof (list %d of %d, %d of %d slots, origin %x, limit %x)", li, len(slots), len(l), len(av.Slots), og, lim)
 		}
 	}
 	if len(slots) == 0 {
@@ -765,6 +754,9 @@ func runTrieNodes(bc *core.BlockChain, v *view, r SL) (o reqOut) {
 			continue
 		}
 		av := v.account(common.BytesToHash([]byte(k)))
+		if av == nil {
+			continue // account not in the state: the handler skips the set without looking at its paths
+		}
 		bad := false
 		for _, p := range sl[1:] {
 			pb, ok := p.(SB)
@@ -772,9 +764,7 @@ func runTrieNodes(bc *core.BlockChain, v *view, r SL) (o reqOut) {
 				bad = true
 				break
 			}
-			if av != nil {
-				wants = append(wants, want{nodes: av.Nodes, path: trie.VerifCompactToHex([]byte(pb))})
-			}
+			wants = append(wants, want{nodes: av.Nodes, path: trie.VerifCompactToHex([]byte(pb))})
 		}
 		if bad {
 			malformed = true
@@ -1191,7 +1181,7 @@ func genReqs(r *Rng, v *view, adversarial bool, big_ bool) SL {
 						sets = append(sets, L(L(), B(nil)))
 					default:
 						k := randHash(r)
-						if len(v.Accounts) > 0 {
+						if len(v.Accounts) > 0 && r.Chance(2, 3) {
 							k = v.Accounts[r.Intn(len(v.Accounts))].Hash
 						}
 						sets = append(sets, L(B(k[:]), B(nil), L(B(nil)))) // list as storage path
@@ -1230,9 +1220,12 @@ func genReqs(r *Rng, v *view, adversarial bool, big_ bool) SL {
 
 func gen(r *Rng, tier string, emit func(Sx)) {
 	r = NewRng(r.U64())
-	n := 90
+	n := 220
 	if tier == "thorough" {
 		n = 2500
+	}
+	for _, w := range witnessCases() {
+		emit(w)
 	}
 	for i := 0; i < n; i++ {
 		spec := genSpec(r)
@@ -1244,6 +1237,37 @@ func gen(r *Rng, tier string, emit func(Sx)) {
 		bc.Stop()
 		emit(L(v.sx(), reqs, spec.sx()))
 	}
+}
+
+// the recorded finding (repaired in /repo 1d1b984ea0): origin absent/zero, iteration stopped at
+// req.Limit before the end of the storage; one and two requested accounts
+func witnessCases() []Sx {
+	var out []Sx
+	for scheme := 0; scheme < 2; scheme++ {
+		spec := &stateSpec{Scheme: scheme, Accounts: []accSpec{
+			{Addr: common.HexToAddress("0x67408c17eeaa82bc5759571657476edf651e7662"), Balance: new(big.Int),
+				Storage: [][2]common.Hash{{common.Hash{}, common.BytesToHash([]byte{0xc6})}, {common.BytesToHash([]byte{0xff}), common.BytesToHash([]byte{0x45})}}},
+			{Addr: common.HexToAddress("0x00000000000000000000000000000000000000aa"), Balance: big.NewInt(7),
+				Storage: [][2]common.Hash{{common.BytesToHash([]byte{1}), common.BytesToHash([]byte{2})}}},
+		}}
+		bc, root := buildChain(spec)
+		v := computeView(bc, root, spec)
+		bc.Stop()
+		var both, rev SL
+		for _, a := range v.Accounts {
+			both = append(both, hN(a.Hash))
+			rev = append(SL{hN(a.Hash)}, rev...)
+		}
+		var reqs SL
+		for _, accs := range []SL{both[:1], both[1:], both, rev} {
+			reqs = append(reqs,
+				L(I(1), I(1), accs, B(nil), B([]byte{0}), U(1)),
+				L(I(1), I(1), accs, B(nil), B([]byte{0}), U(100000)),
+				L(I(1), I(1), accs, B(make([]byte, 32)), B(make([]byte, 32)), U(100000)))
+		}
+		out = append(out, L(v.sx(), reqs, spec.sx()))
+	}
+	return out
 }
 
 func main() {
